@@ -139,6 +139,16 @@ def gen_valid(rng, maxn=12):
         hi = None if hi is None else F(hi)
     else:
         inp = series(rng, n, anchors)
+        if rng.random() < 0.3:
+            # whole-number data (deliverable as an integer array) against bounds with a fractional part: values on either
+            # side of the bound AND of its truncation
+            inp = [None if v is None else F(int(v // 1)) for v in inp]
+            if rng.random() < 0.7:
+                inp = [v for v in inp if v is not None]
+            lo = None if lo is None else lo + rng.choice([H, -H, F(1, 4)])
+            hi = None if hi is None else hi + rng.choice([H, -H, F(3, 4)])
+            if lo is not None and hi is not None and lo > hi:
+                lo, hi = hi, lo
     return {"fn": "valid", "lo": lo, "hi": hi, "start_incl": rng.random() < 0.5, "end_incl": rng.random() < 0.5,
             "inp": inp, "as_time": as_time}
 
@@ -583,6 +593,23 @@ def gen_speed(rng, maxn=10):
         which = rng.choice(["lat", "t"])
         case[which] = case[which][:-1]
     return case
+
+
+def subsecond(case, rng):
+    """The same logical case on timestamps with a fractional second: stamp i is t[i] seconds plus c[i] quarter seconds, c
+    non-decreasing with increments below one second, so that every elapsed time, cut to WHOLE seconds as the rate tests
+    document, is the elapsed time of the whole-second axis `t` the model is given.  None when the axis does not fit."""
+    t = case.get("t")
+    if t is None or len(t) < 2 or any(b - a < 1 for a, b in zip(t, t[1:])):
+        return None
+    c, out = 0, []
+    for i, sec in enumerate(t):
+        if i:
+            c += rng.choice([0, 1, 2, 3, 3])
+        out.append(int(sec) * 1_000_000_000 + c * 250_000_000)
+    if out[-1] == int(t[-1]) * 1_000_000_000:
+        return None
+    return dict(case, t_ns=out)
 
 
 GENERATORS = {
